@@ -155,6 +155,33 @@ PROPS["C17"] = {
     "assumptions": ["lattice coordinates", "distinct element ids per kind"],
 }
 
+PROPS["C04"] = {
+    "props": ["OsmVerif.Props.C04"],
+    "gens": ["Schema"],
+    "required_theorems": ["names_eq_osm_xml", "marshal_names_decodable", "marshal_covers_all_collections", "block_names_decodable",
+                          "attrs_roundtrip", "codec_attr_names_distinct"],
+    "technique": "Lean 4 theorems over the struct-tag schema and custom-marshaler call lists regenerated from the source, interpreted with encoding/xml's naming rules (schema = pinned OSM XML vocabulary; every emitted element name is one the decoders accept); container shapes and attribute lists of the model compared with real xml.Marshal output; direct Marshal->Unmarshal and Marshal->Scanner round trips on generated values",
+    "level_text": "Machine-checked proof over the schema regenerated from the source: every codec struct carries exactly the pinned OSM XML names (attributes, elements, omitempty, paths); every element name written by the custom container marshalers (OSM, osmChange blocks, diff actions, changeset discussion) - computed from the extracted Encode calls with encoding/xml's own-name rule (XMLName tag, else Go type name) - is one the OSM struct decodes and the streaming scanner dispatches on, and every collection is written; the attribute part of every record round-trips for all values (generic theorem over field tables with distinct attribute names, instantiated for all 27 codec structs). The reflection codec itself is not modelled: full-value round trips (Marshal->Unmarshal equality and Marshal->Scanner equality for Node, Way, Relation, Changeset, Note, User, Bounds, OSM, Change, Diff with every optional part toggled) are direct checks on the real code, and the model's container shapes and attribute lists are compared with real xml.Marshal output.",
+    "level_note": "Trusted: Lean kernel; the fact extractor; encoding/xml; the pinned vocabulary. Nested element content (tags, nd, member, update, discussion, note/user sub-elements) is covered by the direct round-trip oracle and the schema pin, not by a Lean round-trip theorem.",
+    "design_ref": "DESIGN.md §5 C03/C04",
+    "trusted_base": ["encoding/xml (reflection codec, tokenizer, escaping) is trusted; only tags, XMLName fields and the custom marshalers are modelled",
+                     "pinned vocabulary in Spec/OsmSchemaPinned.lean and, independently, the writer in harness/xmlgen.go"],
+    "assumptions": ["XML-representable strings (valid UTF-8, no control characters other than tab/newline)", "finite coordinates", "UTC times"],
+}
+
+PROPS["C03"] = {
+    "props": ["OsmVerif.Props.C03"],
+    "gens": ["Schema"],
+    "required_theorems": ["names_eq_osm_xml", "unmarshal_attr_perm", "unmarshal_ignores_unknown", "scanner_cases_eq_osm_fields",
+                          "action_cases", "stream_eq_whole", "stream_only_known", "change_blocks_accumulate"],
+    "technique": "Lean 4 theorems over the struct-tag schema and dispatch labels regenerated from the source (schema = pinned OSM XML vocabulary; attribute decoding independent of order and unknown attributes; scanner dispatch = OSM fields; per-kind stream = whole-document collections; osmChange blocks accumulate); documents from an independent XML writer decoded at once and by the streaming scanner and compared with the written values",
+    "level_text": "Machine-checked proof over the schema regenerated from the source: every codec struct is decoded from exactly the pinned OSM XML names; the attribute decoder of every record type is independent of attribute order and ignores unknown attributes; the scanner dispatches on exactly the element names the OSM struct decodes, so per kind the streaming sequence equals the whole-document collection in document order, also across repeated and interleaved osmChange blocks. Tokenizer-level claims (entity escaping, whitespace, comments, self-closing tags) and the reflection decoder are trusted encoding/xml behaviour; they are exercised on every run by an independent XML writer (own vocabulary table) whose documents - all element kinds, optional attributes toggled, Unicode text, random layout, unknown attributes/elements, interleaved change blocks, diff actions - are decoded with xml.Unmarshal and with osmxml.Scanner and compared with the written values.",
+    "level_note": "Trusted: Lean kernel; the fact extractor; encoding/xml; the pinned vocabulary (Spec/OsmSchemaPinned.lean) and the harness writer's own vocabulary. 'Unknown elements' = elements outside the OSM vocabulary whose whole subtree is outside it too (the scanner matches known names at any depth by design).",
+    "design_ref": "DESIGN.md §5 C03/C04",
+    "trusted_base": ["encoding/xml tokenizer and reflection decoder", "independent writer harness/xmlgen.go"],
+    "assumptions": ["well-formed XML with distinct attribute names per element", "unknown wrappers do not contain vocabulary elements"],
+}
+
 NOT_APPLICABLE = {pid: "check not built yet in this session (planned, see DESIGN.md §9); no claim is made" for pid in
                   ["C%02d" % i for i in range(1, 21)] if pid not in PROPS}
 
